@@ -403,8 +403,51 @@ func c04one(c *wk.Ctx, i int, rng *rand.Rand, transport string) {
 		c.Inconclusive("plan", i, rawErr)
 		return
 	}
-	// quiescence: a final call from every connection to every object flushes the FIFOs
 	pk.close2()
+	// wave phase: per session, goroutines released together issue one call each to the same object
+	// and action through the same client, round after round (maximum contention on what makes a
+	// call distinguishable from its siblings); same oracle
+	{
+		waves := 12 + rng.Intn(20)
+		width := 8 + rng.Intn(9)
+		for si, sess := range sessions {
+			p, err := proxyFor(sess, w.svcs[0], w.svcs[0].objs[0])
+			if err != nil {
+				continue
+			}
+			for r := 0; r < waves; r++ {
+				gate := make(chan struct{})
+				var wwg sync.WaitGroup
+				wrecs := make([]*callRec, width)
+				for g := 0; g < width; g++ {
+					wwg.Add(1)
+					rec := &callRec{token: uint64(3000+si)<<32 | uint64(r*64+g), arg: fmt.Sprintf("w%d.%d", r, g), svcIdx: 0, objIdx: 0, conn: si, config: "wave"}
+					wrecs[g] = rec
+					go func() {
+						defer wwg.Done()
+						<-gate
+						rec.call = now()
+						rec.result, rec.err = p.Work(rec.token, rec.arg)
+						rec.ret = now()
+					}()
+				}
+				close(gate)
+				wdone := make(chan struct{})
+				go func() { wwg.Wait(); close(wdone) }()
+				if v, dump := stuck.Wait(wdone, &progress, 3*time.Minute); v != stuck.Returned {
+					if v == stuck.Stuck {
+						detail["dump"] = clipDump(dump)
+						c.Viol("plan", i, "call=never-returned/config=wave", "a call issued in a wave of simultaneous calls through one client never returned", detail)
+					} else {
+						c.Inconclusive("plan", i, "watchdog (wave)")
+					}
+					return
+				}
+				recs = append(recs, wrecs...)
+			}
+		}
+	}
+	// quiescence: a final call from every connection to every object flushes the FIFOs
 	for si, sess := range sessions {
 		for s := 0; s < 2; s++ {
 			for o := 0; o < 3; o++ {
